@@ -1,5 +1,7 @@
 import Ladim.Driver.Util
 import Ladim.Model.Run
+import Ladim.Model.RunRoms
+import Ladim.Model.RunOutput
 import Ladim.Model.Release
 import Ladim.Model.Forcing
 import Ladim.Model.Grid
@@ -172,31 +174,16 @@ def opRun (j : Json) : R Json := do
   let oj ← fld j "output"
   let period ← getInt (← fld oj "period")
   let sparse := (← (← fld oj "layout").getStr?) != "dense"
-  let env : RunEnv := {
-    release := fun n => ((relTable.lookup n).getD []).map rowToRP,
-    force := fun n p =>
-      let k := n.toNat
-      sseq.foldl (fun q (nm, seq) =>
-        match sampleScalar g (seq[k]?.getD []) q.x q.y q.z with
-        | some v => { q with vars := setVal q.vars nm (.num v) }
-        | none => { q with vars := setVal q.vars nm .nan }) p,
-    move := fun n p =>
-      let k := n.toNat
-      let (u, dU) := useq[k]?.getD ([], [])
-      let (v, dV) := vseq[k]?.getD ([], [])
-      let vel : VelOracle := fun frac x y =>
-        let U := if frac < 1/1000 then u else addF3 u dU frac
-        let V := if frac < 1/1000 then v else addF3 v dV frac
-        sampleVel g U V sign p.x p.y p.z x y
-      let wadv := sign * valRat (lookupVal p.vars "w")
-      match trackerStep cfg g vel 0 0 0 wadv { x := p.x, y := p.y, z := p.z, alive := p.alive, active := p.active } with
-      | some q => { p with x := quantize q.x, y := quantize q.y, z := quantize q.z, alive := q.alive, active := q.active }
-      | none => { p with vars := setVal p.vars "__oob__" (.num 1) },
-    ibm := fun n p =>
-      let p1 := if doAge then { p with vars := setVal p.vars "age" (.num (valRat (lookupVal p.vars "age") + 1)) } else p
-      if ((killTab.lookup n).getD []).contains p.pid then { p1 with alive := false } else p1,
-    due := fun n => Int.fmod n period == 0,
-    sparse := sparse }
+  let setup : RomsSetup := {
+    g := g,
+    fieldU := fun k => useq[k]?.getD ([], []),
+    fieldV := fun k => vseq[k]?.getD ([], []),
+    scalars := sseq.map (fun (nm, seq) => (nm, fun k => seq[k]?.getD [])),
+    sign := sign, cfg := cfg,
+    releaseAt := fun n => ((relTable.lookup n).getD []).map rowToRP,
+    ageing := doAge, kills := fun n => (killTab.lookup n).getD [],
+    period := period, sparse := sparse, rnd := quantize }
+  let env : RunEnv := setup.env
   let final ← match fldOpt j "warm" with
     | none => pure (env.coldRun nsteps)
     | some wj => do
@@ -211,11 +198,6 @@ def opRun (j : Json) : R Json := do
   let suffix ← (← fld oj "suffix").getStr?
   let isWarm := (fldOpt j "warm").isSome
   let refT := tk.ref
-  let colOf (parts : List RP) (nm : String) : Column :=
-    parts.map (fun p => match nm with
-      | "X" => Val.num p.x | "Y" => Val.num p.y | "Z" => Val.num p.z
-      | "alive" => Val.num (if p.alive then 1 else 0) | "active" => Val.num (if p.active then 1 else 0)
-      | _ => lookupVal p.vars nm)
   -- particle variables of every pid released so far, from the release table (and the warm file)
   let allReleased : List RP := (relTable.flatMap (fun (_, rs) => rs.map rowToRP))
   let warmPv : List (List (String × Val)) ← match fldOpt j "warm" with
@@ -227,26 +209,17 @@ def opRun (j : Json) : R Json := do
         | none => pure [])
     | none => pure []
   let pvTable : List (List (String × Val)) := warmPv ++ allReleased.map (·.pvars)
-  let snapOf (st : Int) (parts : List RP) (npid : Nat) : Snapshot :=
-    { time := ((tk.step2time st - refT : Int) : Rat),
-      pid := parts.map (·.pid), alive := parts.map (·.alive),
-      cols := (outIv.filter (· != "pid")).map (fun nm => (nm, colOf parts nm)),
-      npid := npid,
-      pvars := outPv.map (fun nm => (nm, (pvTable.take npid).map (fun l =>
-        match lookupVal l nm with
-        | .num q => if nm == "release_time" then Val.num (q - refT) else Val.num q
-        | .nan => Val.nan))) }
   -- npid at the time of each record: pids handed out up to and including that step
   let npidAt (st : Int) : Nat :=
     (match fldOpt j "warm" with | some _ => warmPv.length | none => 0) +
       ((relTable.filter (fun (s, _) => s ≤ st)).map (fun (_, rs) => rs.length)).foldl (· + ·) 0
-  let o0 := Out.init (if sparse then .sparse else .dense) period (Out.predictRecords nsteps period isWarm) numrec stem suffix
-  let recTable := final.records
-  let snap (st : Int) : Snapshot := snapOf st ((recTable.lookup st).getD []) (npidAt st)
-  let steps := if isWarm then Out.stepRange 1 (nsteps - 1) else Out.stepRange 0 nsteps
-  let filesJ := match Out.runSteps o0 snap steps with
+  let onames : List String := outIv.filter (fun n => n != "pid")
+  let otime : Int → Rat := fun st => ((tk.step2time st - refT : Int) : Rat)
+  let ospec : OutSpec := { names := onames, pnames := outPv, time := otime, refT := (refT : Rat),
+                           pvTable := pvTable, npidAt := npidAt }
+  let filesJ := match ospec.runFiles (if sparse then .sparse else .dense) nsteps period numrec stem suffix final.records isWarm with
     | .error (st, e) => Json.mkObj [("error", .str e.toString), ("at_step", intJ st)]
-    | .ok o => Json.arr (o.close.files.map (fun (vf : VFile) =>
+    | .ok fs => Json.arr (fs.map (fun (vf : VFile) =>
         Json.mkObj [("name", .str vf.name), ("time", listJ ratJ vf.time), ("count", listJ natJ vf.count),
           ("pid", listJ natJ vf.pid),
           ("inst", Json.mkObj (vf.inst.map (fun (n, c) => (n, listJ valJ c)))),
